@@ -21,6 +21,12 @@ void read_table_column_alignments(const char * source, token * table, scratch_pa
 	IN(unsigned char, n); ASSUME(n <= 2); scratch->table_column_count = n;
 	for (int i = 0; i < 2; i++) { char c; scratch->table_alignment[i] = c; }
 }
+#ifdef EXPECT_ID
+/* C10: a captioned table always carries the id its automatic cross-reference (process_table_to_link, registered whatever the
+ * extensions are) points to */
+static bool g_id_printed;
+void d_string_append_printf(DString * d, const char * fmt, ...) { if (fmt[0] == ' ' && fmt[1] == 'i' && fmt[2] == 'd' && fmt[3] == '=') { g_id_printed = true; } }
+#endif
 static token * mk(unsigned short type, size_t start, size_t len) {
 	token * t = ALLOC(sizeof(token));
 	t->type = type; t->start = start; t->len = len; t->next = NULL; t->prev = NULL; t->child = NULL; t->tail = t; t->mate = NULL;
@@ -40,7 +46,13 @@ void h_table(void) {
 	scratch->padded = 2; scratch->recurse_depth = 1; scratch->skip_token = 0; { IN(unsigned long, ext); scratch->extensions = ext; }
 	{ IN(bool, cap); g_cap = cap ? true : false; } g_cap_rendered = false; g_asked = 0;
 	DString * out = ALLOC(sizeof(DString)); out->str = ALLOC(8); out->str[0] = 0; out->currentStringLength = 0; out->currentStringBufferSize = 8;
+#ifdef EXPECT_ID
+	g_id_printed = false;
+#endif
 	W(out, source, table, scratch);
+#ifdef EXPECT_ID
+	ASSERT(!g_cap || g_id_printed, "C10: a captioned table is given its id for every setting of the extensions (the cross-reference to it is registered unconditionally)");
+#endif
 	ASSERT((scratch->skip_token != 0 ? 1 : 0) == (g_cap_rendered ? 1 : 0), "C02: the token after a table is skipped if and only if this arm rendered it as the table's caption");
 	ASSERT((g_cap_rendered ? 1 : 0) == (g_cap ? 1 : 0), "C02: the caption is rendered exactly when table_has_caption says there is one");
 	ASSERT(scratch->skip_token == 0 || scratch->skip_token == 1, "exactly one token is skipped");
